@@ -36,6 +36,9 @@ impl HllSut {
     }
 }
 impl Sut for HllSut {
+    fn config(&self) -> Value {
+        json!([self.s.b(), self.s.m(), self.s.relative_error().to_bits().to_string()])
+    }
     const TAG: &'static str = "hll";
     fn new(cfg: &Value) -> Self {
         let b = cfg["b"].as_u64().unwrap() as usize;
